@@ -221,6 +221,9 @@ func (l *Gpos6_1) encode() []byte {
 			}
 		}
 	}
+	if mark2ArrayOffset > 0xFFFF {
+		panic("mark2 array offset overflow")
+	}
 	res := make([]byte, 0, total)
 
 	res = append(res,
@@ -259,6 +262,9 @@ func (l *Gpos6_1) encode() []byte {
 			if rec.IsEmpty() {
 				res = append(res, 0, 0)
 				continue
+			}
+			if offs > 0xFFFF {
+				panic("anchor offset overflow")
 			}
 			res = append(res,
 				byte(offs>>8), byte(offs),
